@@ -31,7 +31,7 @@ def main(prop, tier, replay, only):
     # ---- E2 (mirsym) first: cheap ----------------------------------------------------------
     if smt_qs:
         import mirsym_run
-        for qr in mirsym_run.run_all(smt_qs, prop):
+        for qr in mirsym_run.run_all(smt_qs, prop, tier):
             n_queries += qr.n_queries
             solver_s += qr.solver_s
             functions.update(qr.q.functions)
